@@ -34,6 +34,9 @@
 (*       immediately preceding `>` in the sub-selector, so an operand with *)
 (*       `>` is not recognised as superselector of a unify result that     *)
 (*       interleaves sibling compounds                                     *)
+(*   unify_keeps_general_pseudo   of two pseudo-classes of the same name   *)
+(*       CompoundSelector::unify keeps the one that is a superselector of  *)
+(*       the other (the weaker constraint) and drops the stronger one      *)
 (*   amp_via_unify   the selector emitted for a{&b{..}} goes through       *)
 (*       CompoundSelector::unify: duplicate simple selectors are dropped,  *)
 (*       a pseudo-element is moved last and further pseudo-elements are    *)
@@ -138,10 +141,16 @@ ListFormScope(e) == (e.fa = "list" /\ HasTok(e.a, ExplCombs)) \/ (e.fb = "list" 
 UnifySkip(e) == e.st # "ok" \/ HasPe(e.a) \/ HasPe(e.b)
 UnifyBad(e)  == {<<x, i>> \in {1, 2} \X (1..Len(e.u)) : (IF x = 1 THEN e.sa[i] ELSE e.sb[i]) # 1}
 UnifyOK(e)   == UnifySkip(e) \/ UnifyBad(e) = {}
-(* the class of the deviation super_child_through_siblings *)
-UnifyScope(e) == \A p \in UnifyBad(e) : /\ HasTok(IF p[1] = 1 THEN e.a ELSE e.b, {">"})
-                                        /\ HasTok(e.u[p[2]], SibCombs)
-                                        /\ (IF p[1] = 1 THEN e.sa[p[2]] ELSE e.sb[p[2]]) = 0
+Answer(e, p) == IF p[1] = 1 THEN e.sa[p[2]] ELSE e.sb[p[2]]
+Operand(e, p) == IF p[1] = 1 THEN e.a ELSE e.b
+(* the class of the deviation super_child_through_siblings: the operand has a `>`, the member sibling combinators *)
+UnifyChildSib(e) == {p \in UnifyBad(e) : HasTok(Operand(e, p), {">"}) /\ HasTok(e.u[p[2]], SibCombs) /\ Answer(e, p) = 0}
+(* the class of the deviation unify_keeps_general_pseudo: a pseudo-class with a selector argument of the operand is *)
+(* missing in the member, which has another one of the same name (the more general of the two was kept)             *)
+FnSet(toks) == LET L == Parse(toks) IN
+  UNION {UNION {{L[i][k].cmp[n] : n \in {n \in 1..Len(L[i][k].cmp) : L[i][k].cmp[n].k = "fn"}} : k \in 1..Len(L[i])} : i \in 1..Len(L)}
+LostFn(x, c) == \E f \in FnSet(x) : f \notin FnSet(c) /\ \E g \in FnSet(c) : g.t = f.t
+UnifyLostFn(e) == {p \in UnifyBad(e) : LostFn(Operand(e, p), e.u[p[2]]) /\ Answer(e, p) = 0}
 
 ExtendOK(e)  == e.st # "ok" \/ IsSubseq(e.ps, e.e)
 
